@@ -64,7 +64,7 @@ class Gen:
     # ---- rule operations
     def rnd_urr_fields(self):
         r = self.r
-        return {"meth": r.choice([-1, 0, 1, 2, 3, 2, 3, 6, 7]), "minfo": r.choice([-1, -1, 0, 16, 16, 17])}
+        return {"meth": r.choice([-1, 0, 1, 2, 3, 2, 3, 6, 7]), "minfo": r.choice([-1, -1, 0, 8, 16, 16, 17, 24])}
 
     def rnd_op(self, s, creates_only=False, maxid=3, no_loose=False):
         r = self.r
@@ -430,4 +430,23 @@ def usage(seed, n, length=70, pfault=0.0):
                 g.dup_ev()
         # a third of the histories run against a permissive data plane (answers queries for URRs it has removed)
         out.append(script("us-%d-%d" % (seed, i), g, maxrt=1, lax=(i % 3 == 2)))
+    # one URR named by some hundred PDRs (more than 255 and 256): the final usage is due when the LAST of them goes, not before
+    for j in range(max(1, n // 60)):
+        rng = random.Random(seed * 1000037 + 5555 + j)
+        g = Gen(rng, npeers=2)
+        g.assoc_ev(node="n1", peer="p1")
+        npdr = rng.choice([257, 258, 300])
+        g.emit(ev("est", peer="p1", seq=g.nseq("p1"), node="n1", cp="7", ops=[op("create", "urr", 1, meth=2), op("create", "urr", 2, meth=2)]))
+        ids = list(range(1, npdr + 1))
+        for a in range(0, npdr, 50):
+            g.emit(ev("mod", peer="p1", seq=g.nseq("p1"), sref=1, ops=[op("create", "pdr", p, urrs=[1], hasurrs=True) for p in ids[a:a + 50]]))
+        rng.shuffle(ids)
+        for p in ids:
+            # one PDR per request (the statement speaks of requests); now and then the PDR is re-pointed instead of removed
+            if rng.random() < 0.2:
+                g.emit(ev("mod", peer="p1", seq=g.nseq("p1"), sref=1, ops=[op("update", "pdr", p, urrs=[2], hasurrs=True)]))
+            else:
+                g.emit(ev("mod", peer="p1", seq=g.nseq("p1"), sref=1, ops=[op("remove", "pdr", p)]))
+        g.emit(ev("del", peer="p1", seq=g.nseq("p1"), sref=1))
+        out.append(script("us-%d-many%d" % (seed, j), g, maxrt=1))
     return out
